@@ -380,6 +380,19 @@ class World(object):
             except (ValueError, AttributeError):
                 pass
             return
+        if act.get('selfreset'):
+            # fault F8, second form: the handler calls reset() on the object it is notified about
+            # (a "count and re-arm" handler), in the middle of that object's write
+            if st is None or k is None or k != st.dest or st.store is None or st.store.target != 'dest' \
+                    or st.kind not in ('inplace', 'indexed') or st.extra.get('selfwrites') \
+                    or 'selfreset_at' in st.extra:
+                self.bump('fault_F8_dropped')
+                return
+            self.bump('fault_F8_reset_fired')
+            st.extra['selfreset_at'] = len(st.cb_events)     # events recorded so far (this one included)
+            st.extra['selfreset_site'] = site
+            obj.reset()
+            return
         if 'selfwrite' in act:
             # fault F8: the callback writes to the very object it is being notified about, while
             # that object's own write is still in flight (a "corrective" handler)
@@ -1748,6 +1761,9 @@ class World(object):
         if op.get('unregister'):
             cb.armed[op['site']] = {'unregister': True}
             self.bump('fault_F7_unregister_armed')
+        elif op.get('selfreset'):
+            cb.armed[op['site']] = {'selfreset': True}
+            self.bump('fault_F8_armed')
         elif op.get('selfwrite') is not None:
             cb.armed[op['site']] = {'selfwrite': op['selfwrite'], 'via': op.get('via', 'call')}
             self.bump('fault_F8_armed')
